@@ -465,6 +465,26 @@ func c04PublishCopies(c *Check, P string, r *GCRoles) {
 	c.Floor(P+".O5", "fan-out calls in Publish", len(fans), 1)
 	for i, cl := range fans {
 		c.Report(isCopyElem(cl.Common().Args[2]), P+".O5", "PUBLISH-COPIES", Pub, cl.Pos(), fmt.Sprintf("fan-out call#%d", i), "what is handed to the subscribers is a copy of the caller's message, for every index (the publisher's original is never shared)")
+		// the whole batch: after the fan-out of one message, success is reported only once the loop has moved on to the
+		// next message (and finally left the loop) — not from inside the loop body
+		if InLoop(cl) {
+			var incs []ssa.Instruction
+			AllInstrs(Pub, func(in ssa.Instruction) {
+				if ia, ok := in.(*ssa.IndexAddr); ok && IsFullRangeIndex(ia.Index, ia.X) {
+					if inc, isIns := ia.Index.(ssa.Instruction); isIns && ReachAfter(inc, nil)[cl] && ReachAfter(cl, nil)[inc] {
+						incs = append(incs, inc)
+					}
+				}
+			})
+			okAll := len(incs) > 0
+			re := ReachAfter(cl, NewCut().AddInstrs(incs...))
+			for _, ret := range Returns(Pub) {
+				if re[ret] && RetNil(ret, 0) {
+					okAll = false
+				}
+			}
+			c.Report(okAll, P+".O5", "PUBLISH-WHOLE-BATCH", Pub, cl.Pos(), fmt.Sprintf("fan-out call#%d", i), "Publish reports success only after every message of the batch went through the fan-out (no successful return from inside the per-message loop)")
+		}
 	}
 	nper := 0
 	AllInstrs(Pub, func(in ssa.Instruction) {
